@@ -164,114 +164,153 @@ Proof.
 Qed.
 
 (* ------------------------------------------------------------------ *)
-(* one term through write_binding, the XML reader, parseTerm *)
+(* SPARQLXMLWriter._characters: CR travels as a character reference *)
 
-Definition xml_term_roundtrip (t : term) : option term :=
-  match xml_write_term (Some t) with
-  | Some x => match xml_decode_term x with Some p => xml_parseTerm p | None => None end
-  | None => None
-  end.
+Definition esc_text2 (c : N) : str := if c =? 13 then e_cr else esc_text c.
 
-Lemma decode_nonempty : forall k s, forallb text_char s = true -> s <> [] ->
-  xml_decode_term {| xk := k; x_dt := None; x_lang := None; x_text := sax_escape s |}
-  = Some {| pk := k; p_dt := None; p_lang := None; p_text := Some s |}.
+Lemma xml_characters_map : forall s, xml_characters s = flat_map esc_text2 s.
 Proof.
-  intros k s H Hne. unfold xml_decode_term. simpl. rewrite xml_read_text by auto.
-  destruct s; [congruence|reflexivity].
+  unfold xml_characters. induction s as [|x r IH]; [reflexivity|].
+  cbn [split_on flat_map]. destruct (split_on 13 r) as [h t]. unfold esc_text2 at 1.
+  destruct (x =? 13).
+  - cbn [flat_map]. rewrite <- IH. change (sax_escape []) with (@nil N). cbn [app].
+    rewrite <- app_assoc. reflexivity.
+  - rewrite <- IH. rewrite (sax_escape_map (x :: h)). cbn [flat_map]. rewrite <- sax_escape_map.
+    rewrite <- app_assoc. reflexivity.
 Qed.
 
-Lemma xml_term_ok : forall t,
-  term_wf t = true -> forallb (forallb is_xml_char) (term_strings t) = true ->
-  memb N.eqb 13 (term_text t) = false -> empty_iri t = false ->
-  xml_term_roundtrip t = Some t.
+Lemma rd_text2_char : forall c out, is_xml_char c = true -> rd false (esc_text2 c) (XT out false) = XT (c :: out) false.
 Proof.
-  intros t Hwf Hch Hcr Hemp. unfold xml_term_roundtrip.
-  destruct t as [s|s|lex dt lang]; simpl in Hch, Hcr.
+  intros c out H. unfold esc_text2. destruct (N.eqb_spec c 13); [subst; reflexivity|].
+  apply rd_text_char. unfold text_char. rewrite H. apply N.eqb_neq in n. now rewrite n.
+Qed.
+
+(* what _characters writes is read back unchanged, for every string of XML Chars - CR included *)
+Lemma xml_read_characters : forall s, str_xml s = true -> xml_read false (xml_characters s) = Some s.
+Proof.
+  intros s H. unfold xml_read. rewrite xml_characters_map. fold (rd false (flat_map esc_text2 s) (XT [] false)).
+  rewrite (rd_flat_map false is_xml_char esc_text2 rd_text2_char) by exact H.
+  rewrite app_nil_r, rev_involutive. reflexivity.
+Qed.
+
+(* ------------------------------------------------------------------ *)
+(* one term through write_binding, the XML reader, parseTerm *)
+
+Definition xml_elem_roundtrip (t : term) : option term :=
+  match xml_decode_term (xml_term_elem t) with Some p => xml_parseTerm p | None => None end.
+
+Lemma xml_term_ok : forall t,
+  term_wf t = true -> forallb str_xml (term_strings t) = true -> xml_elem_roundtrip t = Some t.
+Proof.
+  intros t Hwf Hch. unfold xml_elem_roundtrip.
+  destruct t as [s|s|lex dt lang]; simpl in Hch.
   - apply andb_true_iff in Hch. destruct Hch as [Hs _].
-    destruct s as [|c r]; [reflexivity|].
-    simpl xml_write_term. cbv iota. rewrite decode_nonempty; [reflexivity|apply text_char_of; auto|discriminate].
+    unfold xml_term_elem, xml_decode_term. cbn [x_text x_dt x_lang xk opt_map_o].
+    rewrite xml_read_characters by auto. destruct s; reflexivity.
   - apply andb_true_iff in Hch. destruct Hch as [Hs _].
-    destruct s as [|c r]; [discriminate|].
-    simpl xml_write_term. cbv iota. rewrite decode_nonempty; [reflexivity|apply text_char_of; auto|discriminate].
+    unfold xml_term_elem, xml_decode_term. cbn [x_text x_dt x_lang xk opt_map_o].
+    rewrite xml_read_characters by auto. destruct s; [discriminate|reflexivity].
   - apply andb_true_iff in Hch. destruct Hch as [Hlex Hrest].
-    assert (Htext : xml_read false (sax_escape lex) = Some lex) by (apply xml_read_text; apply text_char_of; auto).
+    pose proof (xml_read_characters lex Hlex) as Htext.
     destruct lang as [[|c l]|]; [discriminate| |].
-    + (* language-tagged *)
-      destruct dt; [discriminate|]. simpl in Hrest. apply andb_true_iff in Hrest. destruct Hrest as [Hl _].
-      simpl xml_write_term. cbv iota. unfold xml_decode_term. simpl x_text. simpl x_dt. simpl x_lang. simpl xk.
-      rewrite Htext. simpl opt_map_o. rewrite (xml_read_attr_ok (c :: l) Hl).
+    + destruct dt; [discriminate|]. simpl in Hrest. apply andb_true_iff in Hrest. destruct Hrest as [Hl _].
+      unfold xml_term_elem. cbn [nonempty]. unfold xml_decode_term. cbn [x_text x_dt x_lang xk].
+      rewrite Htext. cbn [opt_map_o]. rewrite (xml_read_attr_ok (c :: l) Hl).
       destruct lex as [|c0 lex']; reflexivity.
     + destruct dt as [d|].
       * simpl in Hrest. apply andb_true_iff in Hrest. destruct Hrest as [Hd _].
-        assert (Hdne : nonempty (Some d) = Some d) by (destruct d; [discriminate|reflexivity]).
         assert (Hwf' : str_eqb d xsd_boolean && str_eqb lex [] = false) by (apply negb_true_iff; exact Hwf).
-        clear Hwf Hemp.
-        unfold xml_write_term. change (nonempty (@None str)) with (@None str). cbv iota. rewrite Hdne.
-        unfold xml_decode_term. cbn [x_text x_dt x_lang xk]. rewrite Htext. cbn [opt_map_o].
-        rewrite (xml_read_attr_ok d Hd).
-        unfold xml_parseTerm. cbn [pk p_dt p_lang p_text]. rewrite Hdne.
+        unfold xml_term_elem. cbn [nonempty]. unfold xml_decode_term. cbn [x_text x_dt x_lang xk].
+        rewrite Htext. cbn [opt_map_o]. rewrite (xml_read_attr_ok d Hd).
+        unfold xml_parseTerm. cbn [pk p_dt p_lang p_text].
         destruct lex as [|c0 lex']; cbv iota.
         -- unfold py_Literal. rewrite Hwf'. reflexivity.
         -- unfold py_Literal. replace (str_eqb (c0 :: lex') []) with false by reflexivity.
            rewrite andb_false_r. reflexivity.
-      * simpl xml_write_term. cbv iota. unfold xml_decode_term. simpl x_text. simpl x_dt. simpl x_lang. simpl xk.
-        rewrite Htext. simpl opt_map_o. destruct lex as [|c0 lex']; reflexivity.
+      * unfold xml_term_elem. cbn [nonempty]. unfold xml_decode_term. cbn [x_text x_dt x_lang xk].
+        rewrite Htext. cbn [opt_map_o]. destruct lex as [|c0 lex']; reflexivity.
+Qed.
+
+Lemma written_strings_ok : forall t, term_wf t = true ->
+  forallb str_xml (written_strings t) = forallb str_xml (term_strings t).
+Proof.
+  intros [s|s|lex dt lang] H; try reflexivity.
+  destruct lang as [[|c l]|]; [discriminate| |].
+  - destruct dt; [discriminate|]. cbn. rewrite !andb_true_r. apply andb_comm.
+  - destruct dt as [d|]; cbn; rewrite ?andb_true_r; [apply andb_comm|reflexivity].
 Qed.
 
 (* ------------------------------------------------------------------ *)
 (* documents *)
 
-Definition entry_ok (kv : str * option term) : Prop :=
-  forallb is_xml_char (fst kv) = true /\ exists t, snd kv = Some t /\ xml_term_roundtrip t = Some t.
-
-Lemma xml_row_ok : forall r, (forall kv, In kv r -> entry_ok kv) ->
-  exists xr, xml_write_row r = Some xr /\ all_some (map xml_parse_bind xr) = Some (bound_of r).
+Lemma all_w_chk : forall A B (ok : A -> bool) (g : A -> B) l,
+  all_w (map (fun x => if ok x then WOk (g x) else WRefuse) l)
+  = if forallb ok l then WOk (map g l) else WRefuse.
 Proof.
-  unfold xml_write_row. induction r as [|[k o] r IH]; intro H.
-  - exists []. split; reflexivity.
-  - destruct (H (k, o) (or_introl eq_refl)) as [Hk [t [Ho Hrt]]]. simpl in Hk, Ho. subst o.
-    destruct IH as [xr [Hw Hp]]; [intros; apply H; right; auto|].
-    unfold xml_term_roundtrip in Hrt.
-    destruct (xml_write_term (Some t)) as [x|] eqn:Ex; [|discriminate].
-    destruct (xml_decode_term x) as [p|] eqn:Ep; [|discriminate].
-    exists ((sax_quoteattr k, x) :: xr). split.
-    + cbn [map all_some fst snd]. rewrite Ex. cbn [all_some].
-      change (all_some (map (fun kv => match xml_write_term (snd kv) with
-                                       | Some x0 => Some (sax_quoteattr (fst kv), x0) | None => None end) r))
-        with (all_some (map (fun kv => match xml_write_term (snd kv) with
-                                       | Some x0 => Some (sax_quoteattr (fst kv), x0) | None => None end) r)).
-      rewrite Hw. reflexivity.
-    + cbn [map all_some]. unfold xml_parse_bind at 1. cbn [fst snd].
-      rewrite (xml_read_attr_ok k Hk), Ep, Hrt. rewrite Hp. reflexivity.
+  induction l as [|x r IH]; [reflexivity|]. cbn [map all_w forallb].
+  destruct (ok x); [|reflexivity]. rewrite IH. cbn [andb]. destruct (forallb ok r); reflexivity.
 Qed.
 
-Lemma xml_rows_ok : forall rows, (forall r, In r rows -> forall kv, In kv r -> entry_ok kv) ->
-  exists xrs, all_some (map xml_write_row rows) = Some xrs
-              /\ all_some (map (fun r => all_some (map xml_parse_bind r)) xrs) = Some (map bound_of rows).
+Lemma forallb_ext_in : forall A (f g : A -> bool) l, (forall x, In x l -> f x = g x) -> forallb f l = forallb g l.
 Proof.
-  induction rows as [|r rs IH]; intro H.
-  - exists []. split; reflexivity.
-  - destruct (xml_row_ok r (H r (or_introl eq_refl))) as [xr [Hw Hp]].
-    destruct IH as [xrs [Hws Hps]]; [intros; eapply H; [right|]; eauto|].
-    exists (xr :: xrs). split.
-    + cbn [map all_some]. rewrite Hw, Hws. reflexivity.
-    + cbn [map all_some]. rewrite Hp, Hps. reflexivity.
+  induction l as [|x r IH]; intro H; [reflexivity|]. cbn [forallb].
+  rewrite (H x) by (left; auto). rewrite IH; auto. intros; apply H; right; auto.
 Qed.
 
-Lemma xml_select : forall vars rows,
-  forallb (forallb is_xml_char) vars = true ->
-  (forall r, In r rows -> forall kv, In kv r -> entry_ok kv) ->
-  match xml_serialize None vars rows with Some d => xml_parse d | None => OErr end
-  = OSel vars (map bound_of rows).
+(* per binding: what is checked, and what is written when the check passes *)
+Definition bind_okw (kv : str * option term) : bool :=
+  str_xml (fst kv) && match snd kv with Some t => forallb str_xml (written_strings t) | None => true end.
+Definition bind_ok (kv : str * option term) : bool :=
+  str_xml (fst kv) && match snd kv with Some t => forallb str_xml (term_strings t) | None => true end.
+Definition bind_g (kv : str * option term) : xbind :=
+  (sax_quoteattr (fst kv), xml_term_elem (match snd kv with Some t => t | None => IRI [] end)).
+
+Definition all_bound (r : row) : bool := forallb (fun kv => match snd kv with Some _ => true | None => false end) r.
+
+Lemma xml_write_bind_chk : forall kv, (match snd kv with Some _ => true | None => false end) = true ->
+  xml_write_bind kv = if bind_okw kv then WOk (bind_g kv) else WRefuse.
 Proof.
-  intros vars rows Hv H. destruct (xml_rows_ok rows H) as [xrs [Hw Hp]].
-  unfold xml_serialize. rewrite Hw. unfold xml_parse. rewrite Hp.
-  rewrite map_map. rewrite all_some_map_id; [reflexivity|].
-  intros v Hin. apply xml_read_attr_ok. rewrite forallb_forall in Hv. auto.
+  intros [k [t|]] H; [|discriminate]. unfold xml_write_bind, bind_okw, bind_g, xml_write_term. cbn [fst snd].
+  destruct (str_xml k); [|reflexivity]. cbn [andb]. destruct (forallb str_xml (written_strings t)); reflexivity.
+Qed.
+
+Lemma xml_write_row_chk : forall r, all_bound r = true ->
+  xml_write_row r = if forallb bind_okw r then WOk (map bind_g r) else WRefuse.
+Proof.
+  intros r H. unfold xml_write_row. rewrite <- all_w_chk. f_equal. apply map_ext_in.
+  intros kv Hin. apply xml_write_bind_chk. unfold all_bound in H. rewrite forallb_forall in H. auto.
+Qed.
+
+Lemma xml_serialize_chk : forall vars rows, forallb all_bound rows = true ->
+  xml_serialize None vars rows
+  = if forallb str_xml vars && forallb (forallb bind_okw) rows
+    then WOk (XSel (map sax_quoteattr vars) (map (map bind_g) rows)) else WRefuse.
+Proof.
+  intros vars rows H. unfold xml_serialize.
+  change (map xml_write_var vars) with (map (fun v => if str_xml v then WOk (sax_quoteattr v) else WRefuse) vars).
+  rewrite all_w_chk. destruct (forallb str_xml vars); [|reflexivity]. cbn [andb].
+  replace (map xml_write_row rows)
+    with (map (fun r => if forallb bind_okw r then WOk (map bind_g r) else WRefuse) rows).
+  - rewrite all_w_chk. destruct (forallb (forallb bind_okw) rows); reflexivity.
+  - apply map_ext_in. intros r Hr. symmetry. apply xml_write_row_chk. rewrite forallb_forall in H. auto.
+Qed.
+
+Lemma xml_row_parse : forall r,
+  (forall kv, In kv r -> exists t, snd kv = Some t /\ str_xml (fst kv) = true /\ xml_elem_roundtrip t = Some t) ->
+  all_some (map xml_parse_bind (map bind_g r)) = Some (bound_of r).
+Proof.
+  induction r as [|[k o] r IH]; intro H; [reflexivity|].
+  destruct (H (k, o) (or_introl eq_refl)) as [t [Ho [Hk Hrt]]]. simpl in Ho, Hk. subst o.
+  cbn [map all_some]. unfold xml_parse_bind at 1.
+  change (fst (bind_g (k, Some t))) with (sax_quoteattr k).
+  change (snd (bind_g (k, Some t))) with (xml_term_elem t).
+  rewrite (xml_read_attr_ok k Hk). unfold xml_elem_roundtrip in Hrt.
+  destruct (xml_decode_term (xml_term_elem t)) as [p|]; [|discriminate]. rewrite Hrt.
+  rewrite IH by (intros; apply H; right; auto). reflexivity.
 Qed.
 
 Lemma xml_ask : forall b vars rows,
-  match xml_serialize (Some b) vars rows with Some d => xml_parse d | None => OErr end = OAsk b.
+  match xml_serialize (Some b) vars rows with WOk d => xml_parse d | WRefuse => ORefused | WFail => OErr end = OAsk b.
 Proof. intros [|] vars rows; reflexivity. Qed.
 
 Lemma existsb_false : forall A (f : A -> bool) l, existsb f l = false -> forall x, In x l -> f x = false.
@@ -280,37 +319,44 @@ Proof.
   assert (existsb f l = true) by (apply existsb_exists; eauto). congruence.
 Qed.
 
-Lemma xml_ok : forall c, wf c = true -> kf c = 0 -> c_fmt c = FXml -> spec_ok c (model_obs c) = true.
+(* a SELECT result: written and read back when it is expressible, refused when it is not *)
+Lemma xml_select : forall c, wf c = true -> c_fmt c = FXml -> c_ask c = None ->
+  model_obs c = if xml_expressible c then OSel (c_vars c) (map bound_of (c_rows c)) else ORefused.
 Proof.
-  intros c Hwf Hkf Hf. unfold spec_ok, model_obs. rewrite Hf.
+  intros c Hwf Hf Ha. unfold model_obs. rewrite Hf, Ha.
+  unfold wf in Hwf. rewrite Hf in Hwf. apply andb_true_iff in Hwf. destruct Hwf as [Hwf Hsome].
+  apply andb_true_iff in Hwf. destruct Hwf as [Hnd Hrows].
+  assert (Hterm : forall r, In r (c_rows c) -> forall k t, In (k, Some t) r -> term_wf t = true).
+  { intros r Hr k t Hin. rewrite forallb_forall in Hrows. specialize (Hrows r Hr). unfold row_wf in Hrows.
+    apply andb_true_iff in Hrows. destruct Hrows as [_ Ht]. rewrite forallb_forall in Ht.
+    apply Ht. eapply row_terms_In; eauto. }
+  rewrite xml_serialize_chk by exact Hsome.
+  assert (Hexp : forallb str_xml (c_vars c) && forallb (forallb bind_okw) (c_rows c) = xml_expressible c).
+  { unfold xml_expressible. f_equal. apply forallb_ext_in. intros r Hr. apply forallb_ext_in.
+    intros [k [t|]] Hin; [|reflexivity]. unfold bind_okw. cbn [fst snd]. f_equal.
+    apply written_strings_ok. eapply Hterm; eauto. }
+  rewrite Hexp. destruct (xml_expressible c) eqn:Ex; [|reflexivity].
+  unfold xml_expressible in Ex. apply andb_true_iff in Ex. destruct Ex as [Hv Hb].
+  unfold xml_parse.
+  rewrite (map_map sax_quoteattr xml_read_attr). rewrite (all_some_map_id (fun x => xml_read_attr (sax_quoteattr x))).
+  2:{ intros v Hin. apply xml_read_attr_ok. rewrite forallb_forall in Hv. apply Hv. exact Hin. }
+  rewrite (map_map (map bind_g) (fun r => all_some (map xml_parse_bind r))).
+  rewrite (all_some_map (fun r => all_some (map xml_parse_bind (map bind_g r))) bound_of); [reflexivity|].
+  intros r Hr. apply xml_row_parse. intros [k o] Hin.
+  rewrite forallb_forall in Hsome. specialize (Hsome r Hr). unfold all_bound in Hsome. rewrite forallb_forall in Hsome.
+  specialize (Hsome (k, o) Hin). cbn [snd] in Hsome. destruct o as [t|]; [|discriminate].
+  rewrite forallb_forall in Hb. specialize (Hb r Hr). rewrite forallb_forall in Hb. specialize (Hb (k, Some t) Hin).
+  cbn [fst snd] in Hb. apply andb_true_iff in Hb. destruct Hb as [Hk Hs].
+  exists t. repeat split; auto. apply xml_term_ok; auto. eapply Hterm; eauto.
+Qed.
+
+Lemma xml_ok : forall c, wf c = true -> c_fmt c = FXml -> spec_ok c (model_obs c) = true.
+Proof.
+  intros c Hwf Hf. unfold spec_ok. rewrite Hf.
   destruct (c_ask c) as [b|] eqn:Ea.
-  - rewrite xml_ask. apply eqb_reflx.
-  - unfold kf in Hkf. rewrite Hf, Ea in Hkf.
-    destruct (negb (forallb (forallb is_xml_char)
-               (c_vars c ++ flat_map keys (c_rows c) ++ flat_map term_strings (case_terms c)))) eqn:E1; [discriminate|].
-    destruct (existsb (fun t => memb N.eqb 13 (term_text t)) (case_terms c)) eqn:E2; [discriminate|].
-    destruct (existsb empty_iri (case_terms c)) eqn:E3; [discriminate|].
-    apply negb_false_iff in E1. rewrite !forallb_app in E1.
-    apply andb_true_iff in E1. destruct E1 as [Hv E1]. apply andb_true_iff in E1. destruct E1 as [Hk Hs].
-    unfold wf in Hwf. rewrite Hf in Hwf. apply andb_true_iff in Hwf. destruct Hwf as [Hwf Hx].
-    apply andb_true_iff in Hwf. destruct Hwf as [Hnd Hrows].
-    rename Hx into Hsome.
-    rewrite xml_select; auto.
-    + rewrite list_eqb_refl by apply str_eqb_refl. simpl. apply rows_ok_bound_of. auto.
-    + intros r Hr [k o] Hkv. split.
-      * simpl. rewrite forallb_forall in Hk. apply Hk. apply in_flat_map. exists r. split; auto.
-        unfold keys. apply in_map_iff. exists (k, o). auto.
-      * rewrite forallb_forall in Hsome. specialize (Hsome r Hr). rewrite forallb_forall in Hsome.
-        specialize (Hsome (k, o) Hkv). simpl in Hsome. destruct o as [t|]; [|discriminate].
-        exists t. split; [reflexivity|].
-        assert (Hin : In t (case_terms c)).
-        { unfold case_terms. apply in_flat_map. exists r. split; auto. eapply row_terms_In; eauto. }
-        apply xml_term_ok.
-        -- rewrite forallb_forall in Hrows. specialize (Hrows r Hr). unfold row_wf in Hrows.
-           apply andb_true_iff in Hrows. destruct Hrows as [_ Ht]. rewrite forallb_forall in Ht.
-           apply Ht. eapply row_terms_In; eauto.
-        -- apply forallb_forall. intros s Hs'. rewrite forallb_forall in Hs. apply Hs.
-           apply in_flat_map. exists t. auto.
-        -- apply (existsb_false _ _ _ E2 t Hin).
-        -- apply (existsb_false _ _ _ E3 t Hin).
+  - unfold model_obs. rewrite Hf, Ea. rewrite xml_ask. apply eqb_reflx.
+  - rewrite (xml_select c Hwf Hf Ea). destruct (xml_expressible c); [|reflexivity].
+    unfold spec_select. rewrite list_eqb_refl by apply str_eqb_refl. cbn [andb]. apply rows_ok_bound_of.
+    unfold wf in Hwf. apply andb_true_iff in Hwf. destruct Hwf as [Hwf _].
+    apply andb_true_iff in Hwf. tauto.
 Qed.
